@@ -6,7 +6,7 @@ LEVEL = "proof"
 MODES = ALL_MODES
 FUNCS = [
     "data:TimePoint._tick_over_day_of_month", "data:TimePoint._tick_over",
-    "data:TimePoint.__add__", ("data:TimePoint.__sub__", r"^(cal|ord|week)-"),
+    ("data:TimePoint.__add__", r"^(?!.*\+mixed:)"), ("data:TimePoint.__sub__", r"^(cal|ord|week)-"),
     ("data:Duration.__add__", r"\+tp-"), "data:Duration.__mul__",
 ]
 FUNCS = FUNCS + T1_CAL
